@@ -387,11 +387,21 @@ func init() {
 			name  string
 			data  []core.SeriesSpec
 			ndist int
+			only  []string // if set, the queries run over this dataset instead of the grammar
 		}
 		// the last one: the same through a distributed engine over two remote engines
-		dss := []dsn{{"D2", dataset("D2"), 0}, {"D3", dataset("D3"), 0}, {"extreme", c19Data(), 0}, {"D5", dataset("D5"), 0}, {"D1 distributed", dataset("D1"), 2}}
-		for _, q := range qs {
+		dss := []dsn{{"D2", dataset("D2"), 0, nil}, {"D3", dataset("D3"), 0, nil}, {"extreme", c19Data(), 0, nil}, {"D5", dataset("D5"), 0, nil}, {"D1 distributed", dataset("D1"), 2, nil},
+			// histogram buckets (labels before and after le, equal bounds, missing +Inf)
+			{"C06 histograms", dataset("C06"), 0, []string{`histogram_quantile(0.5, h_bucket)`, `histogram_quantile(0.9, rate(h_bucket[1m]))`, `histogram_quantile(0.5, sum by (le, pod, zone) (h_bucket))`,
+				`histogram_quantile(0.99, h_bucket{l="4"})`, `sum by (zone) (histogram_quantile(0.5, h_bucket))`, `histogram_quantile(scalar(b{l="0"}) / 5, h_bucket)`, `-histogram_quantile(0.5, h_bucket)`}}}
+		for qi, q := range qs {
 			for _, d := range dss {
+				if d.only != nil {
+					if qi >= len(d.only) {
+						continue
+					}
+					q = d.only[qi]
+				}
 				for _, w := range ws {
 					c.Rep.Transitions++
 					if !c.Mine() {
